@@ -201,7 +201,7 @@ fn eval_binary(op: &BinOp, l: Term, r: Term, ext: &ExternTable) -> Result<Term, 
         (Prefix, Str(a), Str(b)) => Ok(Bool(a.starts_with(&b))),
         (Suffix, Str(a), Str(b)) => Ok(Bool(a.ends_with(&b))),
         (Contains, Str(a), Str(b)) => Ok(Bool(a.contains(&b))),
-        (Regex, _, _) => Err(EvalErr::Unsupported("regex".to_string())),
+        (Regex, Str(a), Str(b)) => crate::miniregex::is_match(&b, &a).map(Bool).map_err(|e| EvalErr::Unsupported(format!("regex: {e}"))),
         // booleans
         (And, Bool(a), Bool(b)) => Ok(Bool(a && b)),
         (Or, Bool(a), Bool(b)) => Ok(Bool(a || b)),
